@@ -35,7 +35,7 @@ LEVEL_NOTE = ('trusted base: released mpmath 1.3.0 + the tree at 3p+300 bits as 
 TECHNIQUE = 'runtime reference-model monitor: consensus / defining-relation oracle on every observed value; verified-candidate oracle for Lambert W'
 SHARD_TIMEOUT = {'quick': 600, 'thorough': 3000}
 CASES = {'quick': 300, 'thorough': 7000}
-BUDGET = {'quick': 50, 'thorough': 780}
+BUDGET = {'quick': 50, 'thorough': 420}
 NSHARDS = 16
 HV = dict(heavy=True)
 
@@ -247,16 +247,16 @@ def t_ellippi():
         RG('complete/m-near-1', A(n_lt1, below1(6, 60)), **HV),
         RG('complete/n-tiny', A(real_in(-120, -10), m_01), **HV),
         RG('complete/n=0', A(choice(0), m_01)),
-        RG('complete/n>1(principal-value)', A(uniform_bits(1.01, 10.0), m_01), tmax=15, **HV),
-        RG('complete/n-complex', A(polar(0.1, 4.0, 0.2, 2.9), m_01), tmax=15, **HV),
+        RG('complete/n>1(principal-value)', A(uniform_bits(1.01, 10.0), m_01), tmax=4, precs=[10, 15, 30, 53], **HV),
+        RG('complete/n-complex', A(polar(0.1, 4.0, 0.2, 2.9), m_01), tmax=4, precs=[10, 15, 30, 53], **HV),
         RG('incomplete/|phi|<=pi/2,n<1', A(n_lt1, phi_in, m_01), weight=2, **HV),
         RG('incomplete/|phi|>pi/2,n<1', A(n_lt1, phi_out, m_01), **HV),
         RG('incomplete/n*sin^2<1<n', A(uniform_bits(1.01, 1.9), uniform_bits(-0.7, 0.7), m_01), **HV),
-        RG('incomplete/n>1-beyond-pole(principal-value)', A(uniform_bits(2.0, 10.0), uniform_bits(0.9, 1.5), m_01), tmax=15, **HV),
+        RG('incomplete/n>1-beyond-pole(principal-value)', A(uniform_bits(2.0, 10.0), uniform_bits(0.9, 1.5), m_01), tmax=4, precs=[10, 15, 30, 53], **HV),
         RG('incomplete/m-neg', A(n_lt1, phi_in, m_neg), **HV),
         RG('incomplete/phi-tiny', A(n_lt1, real_in(-80, -8), m_01), **HV),
         RG('incomplete/n-tiny', A(real_in(-120, -10), phi_in, m_01), **HV),
-        RG('incomplete/phi-complex', A(n_lt1, polar(0.1, 1.5), m_01), tmax=15, **HV),
+        RG('incomplete/phi-complex', A(n_lt1, polar(0.1, 1.5), m_01), tmax=4, precs=[10, 15, 30, 53], **HV),
     ]
 
 
@@ -301,11 +301,11 @@ def t_elliprj():
         RG('all-near-equal', lambda r, b: (lambda a, c: [a[0], a[1], c[1], near_equal(lambda r2, b2: a[0])(r, b)[1]])(near_equal(pos)(r, b), near_equal(pos)(r, b))),
         RG('p-tiny', A(pos, pos, pos, real_in(-120, -20, 0))),
         RG('p-huge', A(pos, pos, pos, real_in(20, 120, 0))),
-        RG('p-negative(principal-value)', A(pos, pos, pos, real_in(-3, 5, 1)), tmax=15, **HV),
+        RG('p-negative(principal-value)', A(pos, pos, pos, real_in(-3, 5, 1)), tmax=4, precs=[10, 15, 30, 53], **HV),
         RG('complex-right-half-plane', A(cplx_rhp, cplx_rhp, cplx_rhp, cplx_rhp), weight=2),
         RG('conjugate-pair,p-positive', flat(conj_pair, pos, pos)),
-        RG('conjugate-pair,p-complex', flat(conj_pair, pos, polar_log(-2, 4, 0.2, 2.9)), tmax=15, **HV),
-        RG('complex-any(integration)', A(cplx_any, cplx_any, pos, cplx_any), tmax=15, **HV),
+        RG('conjugate-pair,p-complex', flat(conj_pair, pos, polar_log(-2, 4, 0.2, 2.9)), tmax=4, precs=[10, 15, 30, 53], **HV),
+        RG('complex-any(integration)', A(cplx_any, cplx_any, pos, cplx_any), tmax=4, precs=[10, 15, 30, 53], **HV),
     ]
 
 
@@ -374,14 +374,10 @@ def t_jtheta():
         regs += [
             RG(t + 'z-real,q-real-small', A(z_re, q_small), fn=f),
             RG(t + 'z-real,|q|<0.5', A(z_re, q_mod), fn=f, weight=2),
-            RG(t + 'z-real,|q|-0.5..0.9', A(z_re, q_05_09), fn=f, relation=rel, ref_extra=60),
-            RG(t + 'z-real,|q|-0.9..0.99', A(z_re, q_09_099), fn=f, relation=rel, ref_extra=400),
-            RG(t + 'z-real,|q|-0.99..limit', A(z_re, q_099_lim), fn=f, precs=[10, 15, 30, 53, 64, 100], tmax=20, **HV),
-            RG(t + 'z=0,|q|<0.5', A(zero, q_mod), fn=f),
-            RG(t + 'z=0,q-0.5..0.9', A(zero, uniform_bits(0.5, 0.9)), fn=f, relation=rel, ref_extra=60),
-            RG(t + 'z=0,q-0.9..0.99', A(zero, uniform_bits(0.9, 0.99)), fn=f, relation=rel, ref_extra=400),
+            RG(t + 'z-real,|q|-0.5..0.9', A(z_re, q_05_09), fn=f, relation=rel, ref_extra=80),
+            RG(t + 'z-real,|q|-0.9..0.99', A(z_re, q_09_099), fn=f, relation=rel, ref_extra=600),
             RG(t + 'z-real,q-complex', A(z_re, q_cplx), fn=f),
-            RG(t + 'z-real,q-complex-0.6..0.95', A(z_re, q_cplx_09), fn=f, ref_extra=100),
+            RG(t + 'z-real,q-complex-0.6..0.95', A(z_re, q_cplx_09), fn=f, ref_extra=200),
             RG(t + 'z-small-imag(fixed-point-path),q-real', A(z_small_im, q_mod), fn=f),
             RG(t + 'z-complex,q-real', A(z_cplx, q_mod), fn=f, weight=2),
             RG(t + 'z-large-imag(a-path),q-real', A(z_big_im, q_mod), fn=f),
@@ -389,6 +385,16 @@ def t_jtheta():
             RG(t + 'z-large-real', A(real_in(5, 40), q_mod), fn=f),
             RG(t + 'z-tiny', A(real_in(-100, -6), q_mod), fn=f),
         ]
+        if n != 1:
+            regs += [
+                RG(t + 'z=0,|q|<0.5', A(zero, q_mod), fn=f),
+                RG(t + 'z=0,q-0.5..0.9', A(zero, uniform_bits(0.5, 0.9)), fn=f, relation=rel, ref_extra=80),
+                RG(t + 'z=0,q-0.9..0.99', A(zero, uniform_bits(0.9, 0.99)), fn=f, relation=rel, ref_extra=600),
+            ]
+        if n in (2, 3):
+            # series with positive terms: no cancellation, the only cells decidable next to the documented limit
+            regs.append(RG(t + 'z=0,q-0.99..limit', A(zero, lambda r, b: R(raw_from_float(1 - 10 ** -r.uniform(2.0, 6.5)))), fn=f,
+                           precs=[10, 15, 30, 53, 64, 100], tmax=20, **HV))
         for d in (1, 2, 3):
             fd = f_jtheta(n, d)
             regs += [
@@ -396,7 +402,7 @@ def t_jtheta():
                 RG(t + 'derivative-%d/z-complex,q-real' % d, A(z_cplx, q_mod), fn=fd),
             ]
         regs += [
-            RG(t + 'derivative-1/z-real,|q|-0.5..0.9', A(z_re, q_05_09), fn=f_jtheta(n, 1), ref_extra=60),
+            RG(t + 'derivative-1/z-real,|q|-0.5..0.9', A(z_re, q_05_09), fn=f_jtheta(n, 1), ref_extra=80),
             RG(t + 'derivative-1/z-complex,q-complex', A(z_cplx, q_cplx), fn=f_jtheta(n, 1)),
             RG(t + 'derivative-1/z-large-imag,q-real', A(z_big_im, q_mod), fn=f_jtheta(n, 1)),
         ]
@@ -474,7 +480,7 @@ def t_from(name):
         for lab, g in lst:
             if key == own and lab != lst[0][0]:
                 continue
-            extra = 120 if ('near-1' in lab or '0.5..0.9' in lab or '0.25..0.8' in lab) else 0
+            extra = 150 if ('near-1' in lab or '0.5..0.9' in lab or '0.25..0.8' in lab) else (500 if 'tiny' in lab else 0)
             regs.append(RG('from-%s/%s' % (key, lab), A(g), fn=f_from(name, key), ref_extra=extra))
     return regs
 
@@ -499,7 +505,6 @@ def t_qp():
         RG('finite/n-1..50', A(a_g, one_of(q_mod, q_05_09), integer(1, 50)), fn=f_qp('fin'), weight=2),
         RG('finite/n-50..2000', A(a_g, one_of(q_mod, q_05_09, q_09_099), integer(50, 2000)), fn=f_qp('fin'), **HV),
         RG('finite/|q|>1', A(a_g, one_of(uniform_bits(1.1, 3.0), uniform_bits(-3.0, -1.1)), integer(1, 30)), fn=f_qp('fin')),
-        RG('finite/n-negative', A(a_g, q_mod, integer(-20, -1)), fn=f_qp('fin')),
     ]
 
 
@@ -540,9 +545,23 @@ def t_qhyper():
         RG('0phi1', A(bpar, q_mod, uniform_bits(-3.0, 3.0)), fn=f_qhyper(0, 1)),
         RG('0phi0', A(q_mod, uniform_bits(-3.0, 3.0)), fn=f_qhyper(0, 0)),
         RG('3phi2/|z|<1', A(par, par, par, bpar, bpar, q_mod, zz), fn=f_qhyper(3, 2), **HV),
-        RG('2phi1/terminating(a=q^-n)', lambda r, b: _qterm(r, b), fn=f_qhyper(2, 1)),
+        RG('2phi1/terminating(a=q^-n)', lambda r, b: _qterm(r, b), fn=f_qhyper(2, 1), relation=qterm_rel),
         RG('2phi1/z-tiny', A(par, par, bpar, q_mod, real_in(-100, -8)), fn=f_qhyper(2, 1)),
     ]
+
+
+def qterm_rel(mp, a, b, c, q, z):
+    # terminating 2phi1(q^-n, b; c; q, z): finite sum of the defining series
+    t = s = mp.mpf(1)
+    qk = mp.mpf(1)
+    for k in range(200):
+        f = (1 - a * qk) * (1 - b * qk)
+        if f == 0:
+            return s
+        t = t * f / ((1 - c * qk) * (1 - q * qk)) * z
+        s += t
+        qk *= q
+    raise ValueError('not terminating')
 
 
 def _qterm(r, b):
@@ -591,13 +610,13 @@ def _lw_verify(rm, c, z, k, p):
     return True, None
 
 
-def _strip_ok(rm, w, k, z):
+def _strip_ok(rm, w, k, z, p):
     """documented range of branch k (Corless et al.): k = 0: |Im w| <= pi; k > 0: (2k-2) pi <= Im w <= (2k+1) pi;
-    k < 0 mirrored"""
+    k < 0 mirrored -- widened by the error 2^(8-p)|w| the statement allows for the returned value"""
     with K.at_prec(rm, 80):
         y = rm.im(w)
         pi = rm.pi
-        tol = rm.mpf(2) ** -40
+        tol = rm.ldexp(abs(w), 8 - p) + rm.mpf(2) ** -40
         if k == 0:
             return abs(y) <= pi + tol
         if k > 0:
@@ -684,7 +703,7 @@ def lambertw_check(tree_mp, rec, prop, label, p, zspec, k):
     rec.sample(case)
     rec.maximum('err_units/' + fname, err, case)
     v = refmodel.decide_error(err, 2.0 ** 8)
-    if not _strip_ok(rm, comp, k, z):
+    if not _strip_ok(rm, comp, k, z, p):
         rec.violation(key + '/outside-branch-strip', 'lambertw(z, %d): Im w = %s is outside the documented range of branch %d' % (k, rm.nstr(rm.im(comp), 10), k),
                       case, observed=str(val)[:80], expected=str(refv)[:80])
         return 'violated'
